@@ -90,12 +90,19 @@ def main():
     ap.add_argument("--tests", action="store_true")
     ap.add_argument("--seeded", action="store_true")
     ap.add_argument("--props", default=",".join(PROPS))
+    ap.add_argument("--patches", default=None,
+                    help="glob of patch files to treat as behaviour-preserving edits (kind benign)")
     ap.add_argument("--out", default=os.path.join(HERE, "results.json"))
     a = ap.parse_args()
     index = json.load(open(os.path.join(HERE, "index.json")))
     items = []
     for name, meta in sorted(index.items()):
         items.append((name, os.path.join(HERE, meta["kind"], name + ".patch"), meta))
+    # behaviour-preserving refactorings written by sub-agents (selftest/refactors): must stay silent
+    for f in sorted(glob.glob(os.path.join(HERE, "refactors", "*.patch"))):
+        nm = os.path.basename(f)[:-6]
+        items.append((nm, f, {"kind": "benign", "expect": [],
+                              "note": "refactoring written by a sub-agent (selftest/refactors/README_%s.md)" % nm.split("_")[1]}))
     if a.seeded:
         items = []
         for d in sorted(glob.glob(os.path.join(VERIF, "seeded", "*"))):
@@ -104,6 +111,11 @@ def main():
                 meta = json.load(open(mp))
                 items.append(("seeded_" + os.path.basename(d), os.path.join(d, "patch.diff"),
                               {"kind": "seeded", "expect": [meta.get("property")], "note": meta.get("summary", "")}))
+    if a.patches:
+        items = []
+        for f in sorted(glob.glob(a.patches)):
+            nm = "ref_" + "_".join(f.split("/")[-2:]).replace(".diff", "").replace("-out", "")
+            items.append((nm, f, {"kind": "benign", "expect": [], "note": "refactoring written by a sub-agent"}))
     if a.names:
         items = [it for it in items if any(n in it[0] for n in a.names)]
     props = a.props.split(",")
@@ -119,7 +131,7 @@ def main():
             sys.exit(2)
         shutil.copy(os.path.join(REPO, "Cargo.lock"), os.path.join(wt, "Cargo.lock"))
     results = {}
-    if os.path.exists(a.out) and (a.names or a.seeded):
+    if os.path.exists(a.out) and (a.names or a.seeded or a.patches):
         results = json.load(open(a.out))
     try:
         import queue
